@@ -103,7 +103,7 @@ def body_prepare(umn: bool, n: int, i: int, f: int, j: int, g: int) -> bool:
     ref = [s for s in REF[(umn, n)] if s in healthy]
     sub = [s for s in got if s in healthy]
     hx.require(sub == ref, "C12:healthy-entries-missing-or-reordered",
-               "%s n=%d faults=%r: expected %r got %r" % ("UMN" if umn else "Dir", n, [(a, FAULTS[b]) for a, b in faults], ref, got))
+               lambda: "%s n=%d faults=%r: expected %r got %r" % ("UMN" if umn else "Dir", n, [(a, FAULTS[b]) for a, b in faults], ref, got))
     return True
 
 
@@ -126,12 +126,12 @@ def body_protocol(p: int, i: int, f: int) -> bool:
     out = w.getvalue()
     hx.reach()
     if p in dl.OK_PREFIX:
-        hx.require(out.startswith(dl.OK_PREFIX[p]), "C12:error-status", "%s fault=(%d,%s): %r" % (dl.PROTO_NAMES[p], i, FAULTS[f], out[:80]))
+        hx.require(out.startswith(dl.OK_PREFIX[p]), "C12:error-status", lambda: "%s fault=(%d,%s): %r" % (dl.PROTO_NAMES[p], i, FAULTS[f], out[:80]))
     else:
-        hx.require(not out.startswith(b"3"), "C12:error-status", "%s: %r" % (dl.PROTO_NAMES[p], out[:80]))
+        hx.require(not out.startswith(b"3"), "C12:error-status", lambda: "%s: %r" % (dl.PROTO_NAMES[p], out[:80]))
     for s in healthy:
         base = s.rsplit("/", 1)[1]
-        hx.require(base.encode() in out, "C12:healthy-entry-missing-in-response", "%s fault=(%d,%s): %s not in %r" % (dl.PROTO_NAMES[p], i, FAULTS[f], base, out[:300]))
+        hx.require(base.encode() in out, "C12:healthy-entry-missing-in-response", lambda: "%s fault=(%d,%s): %s not in %r" % (dl.PROTO_NAMES[p], i, FAULTS[f], base, out[:300]))
     return True
 
 
